@@ -683,7 +683,7 @@ func (ev *Env) call(x *ECall) SVal {
 		if ev.old != nil {
 			base = ev.old
 		}
-		return SBool{Or(BVCmp("bvuge", s.Reg, base.alloc), Eq(s.Len, BVInt(0, 64)))}
+		return SBool{BVCmp("bvuge", s.Reg, base.alloc)}
 	case "sameslice":
 		a, aok := ev.eval(x.Args[0]).(SSlice)
 		b, bok := ev.eval(x.Args[1]).(SSlice)
